@@ -140,7 +140,8 @@ class ExtendedTestResult(Python27TestResult):
         self._tags = TagContext(self._tags)
 
     def stopTest(self, test):
-        self._tags = self._tags.parent
+        if self._tags.parent is not None:
+            self._tags = self._tags.parent
         super().stopTest(test)
 
     @property
